@@ -127,14 +127,15 @@ func FindAnchors(prog *Program) *Anchors {
 			}
 		}
 	}
-	a.GetOpts = prog.BexprSSA.Func("getOpts")
+	a.GetOpts = optRoles(prog).getOpts
+	optGetOpts = a.GetOpts
 	need("evaluate dispatcher (func(grammar.Expression, …) (bool, error) reachable from Evaluate)", a.Dispatch)
 	need("match evaluator (func(*grammar.MatchExpression, …) (bool, error))", a.MatchEval)
 	need("collection evaluator (func(*grammar.CollectionExpression, …) (bool, error))", a.CollEval)
 	need("value lookup (func(…) (interface{}, bool, error))", a.GetValue)
 	need("kind→equality table (func(reflect.Kind) func(…) bool)", a.EqTable)
 	need("kind→coercion table (func(*grammar.MatchExpression, reflect.Kind) (interface{}, error))", a.CoerceTab)
-	need("getOpts", a.GetOpts)
+	need("option folder (func(...Option) options)", a.GetOpts)
 	if len(a.Matchers) == 0 {
 		a.Missing = append(a.Missing, "matchers (func(*grammar.MatchExpression, reflect.Value) (bool, error))")
 	}
